@@ -95,26 +95,61 @@ def check_apply(prog, rep, m):
     rep.add('F1', f, entry, norm(w.node), w.node.lineno, ok,
             'window[i, j] must receive data[y - half_rows + i, x - half_cols + j] (identity orientation: no transpose, no '
             'mirror, each half size from its own kernel axis): got window[%r, %r] <- data[%r, %r]' % (a, b, c, d))
-    # the window positions cover the whole kernel: i in [0, k0), j in [0, k1)  (k = 2*half + 1, kernels are odd)
+    # the cells copied into the window: raster row c runs over [y - half_rows, y + half_rows] clipped to [0, rows), the same
+    # for columns; every bound is either a bound of the window loop (a clipped range) or a guard of the store - the two
+    # spellings of one set
+    def terms(r, op):
+        at_ = _single(r)
+        if at_ is not None and at_.name == op:
+            out_ = []
+            for x_ in at_.args:
+                out_ += terms(x_, op)
+            return out_
+        return [r]
+
     def span(pos, lvars):
+        """(lower bounds, upper bounds) the window loop puts on the position expression pos"""
         vs = [l for l in lvars if Sym(l.var) in pos.atoms()]
-        if len(vs) != 1 or vs[0].lo is None:
+        if len(vs) != 1 or vs[0].lo is None or vs[0].hi is None:
             return None
         off = pos - Rat.sym(vs[0].var)
-        return vs[0].lo + off, vs[0].hi + off
-    sa, sb = span(a, wl), span(b, wl)
-    full = lambda sp, ax: sp is not None and sp[0] == Rat.const(0) and (   # noqa
-        sp[1] == Rat.const(2) * half(kernel, ax) + one or sp[1] == shp(kernel, ax))
-    rep.add('F1', f, entry, 'window positions rows %s cols %s' % (sa and tuple(map(repr, sa)), sb and tuple(map(repr, sb))),
-            w.node.lineno, len(wl) == 2 and full(sa, 0) and full(sb, 1),
-            'the window loops must visit every kernel position: rows 0..kernel.shape[0], columns 0..kernel.shape[1] '
-            '(equivalently y +- shape[0]//2, x +- shape[1]//2)')
+        return [t_ + off for t_ in terms(vs[0].lo, 'max')], [t_ + off for t_ in terms(vs[0].hi, 'min')]
+    sc, sd = span(c, wl), span(d, wl)
     gs = flatten_and(w.guards)
     keys = {cond_key(g) for g in gs if g[0] == 'cmp'}
-    need = {cond_key(cmp_cond('>=', c, Rat.const(0))), cond_key(cmp_cond('<', c, shp(data, 0))),
-            cond_key(cmp_cond('>=', d, Rat.const(0))), cond_key(cmp_cond('<', d, shp(data, 1)))}
+    zero = Rat.const(0)
+
+    def axis_ok(sp, pos, centre, ax):
+        """window bounds present, raster bounds present (as loop clip or as guard), nothing else; returns (ok, guards used)"""
+        if sp is None:
+            return False, set()
+        h_ = half(kernel, ax)
+        lows, highs = list(sp[0]), list(sp[1])
+        win_lo, win_his = centre - h_, (centre + h_ + one, centre - h_ + shp(kernel, ax))
+        used = set()
+        ok_ = any(x_ == win_lo for x_ in lows) and any(x_ in win_his for x_ in highs)
+        glo, ghi = cond_key(cmp_cond('>=', pos, zero)), cond_key(cmp_cond('<', pos, shp(data, ax)))
+        if glo in keys:
+            used.add(glo)
+        elif not any(x_ == zero for x_ in lows):
+            ok_ = False
+        if ghi in keys:
+            used.add(ghi)
+        elif not any(x_ == shp(data, ax) for x_ in highs):
+            ok_ = False
+        # no further bound: a tighter clip would drop neighbours
+        ok_ = ok_ and all(x_ == win_lo or x_ == zero for x_ in lows) and all(x_ in win_his or x_ == shp(data, ax) for x_ in highs)
+        return ok_, used
+    okr, ur = axis_ok(sc, c, Y, 0)
+    okc, uc = axis_ok(sd, d, X, 1)
+    show_ = lambda sp: sp and ('max%s' % (tuple(map(repr, sp[0])),), 'min%s' % (tuple(map(repr, sp[1])),))     # noqa
+    rep.add('F1', f, entry, 'window rows %s cols %s' % (show_(sc), show_(sd)),
+            w.node.lineno, len(wl) == 2 and okr and okc,
+            'the window loops must visit every kernel position that lies inside the raster: raster rows y - shape[0]//2 .. '
+            'y + shape[0]//2 clipped to [0, rows), columns x - shape[1]//2 .. x + shape[1]//2 clipped to [0, cols) - the clip '
+            'either as loop bounds or as guards of the copy, each axis against its own extent')
     kgate = cond_key(cmp_cond('==', Rat.atom(App('read', [kernel, a, b])), Rat.const(1)))
-    ok = need <= keys and kgate in keys and len(keys) == 5
+    ok = kgate in keys and keys == ur | uc | {kgate} and len([g for g in gs if g[0] != 'cmp']) == 0
     rep.add('F1', f, entry, 'guards of the window copy: %s' % [cond_repr(g)[:60] for g in gs], w.node.lineno, ok,
             'a neighbour is copied iff it lies inside the raster (rows against the row extent, columns against the column '
             'extent) and the kernel is 1 at the SAME window position')
